@@ -9,6 +9,7 @@ import XL.Model.Lex
 import XL.Model.BookProto
 import XL.Model.Circ
 import XL.Model.Look
+import XL.Model.Fn
 /-!
 # Request dispatcher of the executable model
 -/
@@ -243,11 +244,39 @@ def answerLook (cmd : String) (args : List String) : Option String :=
       pure (BookProto.showVal (averageIf crit test op))
   | _, _ => none
 
+/-- arguments of `fn`: `s val` (typed directly) or `a R C val…` (range / array) -/
+def takeArgs : Nat → List String → Option (List (Res Float) × List String)
+  | 0, ts => some ([], ts)
+  | n + 1, "s" :: v :: rest => do
+      let x ← BookProto.parseVal? v
+      let (as, r) ← takeArgs n rest
+      pure (.scalar x :: as, r)
+  | n + 1, "a" :: R :: C :: rest => do
+      let r ← R.toNat?; let c ← C.toNat?
+      let (vs, r1) ← BookProto.takeVals (r * c) rest
+      let (as, r2) ← takeArgs n r1
+      pure (.arr (BookProto.chunk c r vs) :: as, r2)
+  | _, _ => none
+
+/-- `fn NAME nargs arg…` → `R C v…` | `notfn` | `broadcast` -/
+def answerFn (cmd : String) (args : List String) : Option String :=
+  match cmd, args with
+  | "fn", name :: n :: rest => do
+      let k ← n.toNat?
+      let (as, _) ← takeArgs k rest
+      match libFn name as with
+      | none => pure "notfn"
+      | some (.error _) => pure "broadcast"
+      | some (.ok r) =>
+        let a := r.toArr
+        pure (s!"{a.nrows} {a.ncols} " ++ " ".intercalate (a.flatten.map BookProto.showVal))
+  | _, _ => none
+
 def answer (line : String) : String :=
   match (line.trimAscii.toString.splitOn " ").filter (· ≠ "") with
   | [] => "bad-request"
   | cmd :: args =>
-    match (((((answerRect cmd args).orElse (fun _ => answerRef cmd args)).orElse (fun _ => answerCal cmd args)).orElse (fun _ => answerOps cmd args)).orElse (fun _ => answerParse cmd args)).orElse (fun _ => answerLook cmd args) with
+    match ((((((answerRect cmd args).orElse (fun _ => answerRef cmd args)).orElse (fun _ => answerCal cmd args)).orElse (fun _ => answerOps cmd args)).orElse (fun _ => answerParse cmd args)).orElse (fun _ => answerLook cmd args)).orElse (fun _ => answerFn cmd args) with
     | some r => r
     | none => "bad-request"
 
